@@ -1,6 +1,7 @@
 package main
 
 import (
+	"fmt"
 	"go/ast"
 	"go/token"
 	"go/types"
@@ -159,4 +160,8 @@ func markReflect(w *wset, st *types.Struct, fresh bool, depth int) {
 			}
 		}
 	}
+}
+
+func (f *Frame) lightAssumption() string {
+	return "frame: calls into leaf library packages (strings, fmt, os, time, encoding/*, crypto/*, net/http helpers, database/sql, ...; see leafPkgPrefixes) run module code only through methods of library-declared interfaces on the values they are given; the write sets of those methods are accounted for, except the 'heavy' ones whose closure dispatches dynamically (" + fmt.Sprint(f.heavyList) + "), which leaf library code is assumed never to call"
 }
